@@ -49,7 +49,7 @@ fn dispatch(toks: &[&str]) -> String {
         "deseq" | "dosbin" | "dostok" | "pack" | "txtb" => packrun::dispatch(toks),
         "malform" => malform::run(toks),
         "wozchunk" | "imdparse" | "dosunbin" | "dasmsweep" => malform::pieces(toks),
-        "tokrt" | "escas" | "escint" | "unesc" | "menc" | "mdec" | "mfmt" | "renum" | "applyright" => langrun::dispatch(toks),
+        "tokrt" | "escas" | "escint" | "unesc" | "menc" | "mdec" | "mfmt" | "renum" | "applyright" | "analyze" => langrun::dispatch(toks),
         "minichk" => minrun::minichk(toks),
         "minify" => minrun::minify(toks),
         "dasmrt" => asmrun::dasmrt(toks),
